@@ -70,6 +70,8 @@ def _new_recipe(rng, known_shapes):
         extra["exotic_attrs"] = True
     if rng.random() < 0.15:
         extra["lat_desc"] = True
+    if rng.random() < 0.3:
+        extra["scalar_lonlat"] = True       # only takes effect for single-site datasets
     return {
         **extra,
         "dims": dims, "nf": nf, "nd": nd,
@@ -417,6 +419,8 @@ def make_native(recipe, fmt):
     r["nd"] = max(3, recipe.get("nd", 0) or 4)
     r["spec_last"] = True
     r["dir_first"] = False
+    for k in ("scalar_lonlat", "site_labels", "dir_dtype", "freq_dtype", "scalar_coord", "exotic_attrs", "lat_desc"):
+        r.pop(k, None)
     r["dtype"] = "float32" if recipe.get("data", {}).get("seed", 0) % 2 else "float64"   # model output is often single precision
     ds = D.make_dataset(r)
     e = ds["efth"].values
